@@ -36,7 +36,7 @@ QSETS = {
     "obj3": "obj3",
 }
 RSTAR = {"I": "cube0", "z90": "cube5", "gen0": "gen0", "gen1": "gen1", "gen3": "gen3", "cube14": "cube14", "cube20": "cube20"}
-KINDS = ["single", "batch", "group", "multi", "stack", "notemplate", "group-multi", "group-notemplate", "group-mapping", "group-multi-mapping"]
+KINDS = ["single", "batch", "group", "multi", "stack", "notemplate", "group-multi", "group-notemplate", "group-mapping", "group-multi-mapping", "notemplate-rot", "group-notemplate-rot"]
 TOMO = (30, 30, 30)
 DECOY = [(1.0, (0.0, 0.0, 0.0), 1.6), (0.7, (2.0, 2.0, 0.0), 1.2)]
 DECOY3 = DECOY + [(0.6, (-1.5, 0.5, 2.0), 1.1)]  # without any symmetry: the particle of the second group in the per-group-template kinds
@@ -83,7 +83,7 @@ def cases(tier, seed):
                                     # thorough: the full product for the single-tomogram loader; the other six loader kinds share its
                                     # per-molecule code and are crossed with every orientation, rotation set and scale on one box
                                     continue
-                                if kind in ("notemplate", "group-notemplate") and qs != "z30":
+                                if kind in ("notemplate", "group-notemplate", "notemplate-rot", "group-notemplate-rot") and qs != "z30":
                                     continue
                                 if kind == "group-multi-mapping" and model != "ZNCC":
                                     # two asymmetric particles that share their main blob compete here; at the corner of the range
@@ -129,6 +129,9 @@ def run_case(case):
     Rstar = data.rot_matrix(RSTAR[case["Rstar"]])
     template = data.particle_box(box)  # particle centred in the box
     notemplate = kind in ("notemplate", "group-notemplate")
+    # template-free alignment WITH a rotation search (keyword arguments forwarded to the model): most molecules sit on the
+    # particle, a few are off by one of the searched rotations - the average is sharp and the search must bring them back
+    nt_rot = kind in ("notemplate-rot", "group-notemplate-rot")
     quats = np.asarray(normalize_rotations(_qset_arg(case["qset"])), dtype=np.float64)
     if notemplate:
         quats = np.array([[0.0, 0.0, 0.0, 1.0]])
@@ -142,12 +145,16 @@ def run_case(case):
         # a single pass then leaves 1.2 px between the outputs - a limit of the method, not a pose-bookkeeping error)
         ms = [np.array(m, dtype=np.float64) for m in M_QUICK]
 
+    if nt_rot:
+        ms = [np.zeros(3)] * 10
+
     def build(pstar_px, uid0):
         pos, rots, meta = [], [], []
         for qi, qq in enumerate(quats):
             q = Rotation.from_quat(qq).as_matrix()
             R = Rstar @ q.T
-            for mi, m in enumerate(ms):
+            isI = bool(np.allclose(q, np.eye(3)))
+            for mi, m in enumerate(ms if not nt_rot or isI else ms[:2]):
                 p_px = pstar_px - R @ m
                 pos.append(p_px * scale)
                 rots.append(R)
@@ -204,6 +211,10 @@ def run_case(case):
     elif kind == "group-multi-mapping":
         decoy = data.particle_box(box, blobs=DECOY3)
         outs = [l.molecules for _, l in loader.groupby("g").align_multi_templates({0: [template, decoy], 1: [decoy, template]}, max_shifts=ms_nm, alignment_model=cls, **kw)]
+    elif kind == "notemplate-rot":
+        outs = [loader.align_no_template(max_shifts=ms_nm, alignment_model=cls, **kw).molecules]
+    elif kind == "group-notemplate-rot":
+        outs = [l.molecules for _, l in loader.groupby("g").align_no_template(max_shifts=ms_nm, alignment_model=cls, **kw)]
     elif kind == "group-notemplate":
         outs = [l.molecules for _, l in loader.groupby("g").align_no_template(max_shifts=ms_nm, alignment_model=cls)]
     else:
@@ -229,6 +240,13 @@ def run_case(case):
             cl = ("m=0" if not np.any(m) else "m!=0") + "," + ("q=I" if qI else "q!=I")
             if notemplate:
                 finals.append((out.pos[r] / scale, u))
+            elif nt_rot:
+                finals.append((out.pos[r] / scale, u))
+                dR = Rout[r].T @ Rstar
+                ang = float(np.arccos(np.clip((np.trace(dR) - 1) / 2, -1, 1)))
+                worst_ang = max(worst_ang, ang)
+                if ang > 1e-3:
+                    viol.append((sig("orientation", cl), f"molecule uid {u} (searched rotation {qi} of {case['qset']} away from the particle): output orientation {ang:.4f} rad from the planted orientation after template-free alignment with a rotation search"))
             else:
                 epos = np.abs(out.pos[r] / scale - pstar)
                 worst_pos = max(worst_pos, float(epos.max()))
@@ -249,15 +267,15 @@ def run_case(case):
             if np.abs(rv_move - rv_feat).max() > 2e-4:
                 viol.append((sig("rotation-feature", cl), f"molecule uid {u}: rotated by {np.round(rv_move, 4).tolist()} in its own frame but features say {rv_feat.tolist()}"))
             sc = float(f["score"][r])
-            if not np.isfinite(sc) or (mname == "ZNCC" and not notemplate and kind != "stack" and sc < 0.8):
+            if not np.isfinite(sc) or (mname == "ZNCC" and not notemplate and not nt_rot and kind != "stack" and sc < 0.8):
                 viol.append((sig("score", cl), f"molecule uid {u}: score {sc}"))
             if kind in ("multi", "stack", "group-multi", "group-multi-mapping"):
                 lab = int(f["labels"][r])
                 want = 1 if kind == "stack" else 0
                 if lab != want:
                     viol.append((sig("label", cl), f"molecule uid {u}: label {lab}, the particle is template {want}"))
-    if notemplate and finals:
-        if kind == "group-notemplate":
+    if (notemplate or nt_rot) and finals:
+        if kind in ("group-notemplate", "group-notemplate-rot"):
             # every group is aligned to its own average: consistency within each group
             spread = 0.0
             for gv in (0, 1):
